@@ -95,7 +95,7 @@ Lemma list_ind4 {A} (P : list A -> Prop) :
   P [] -> (forall a, P [a]) -> (forall a b, P [a; b]) -> (forall a b c, P [a; b; c]) ->
   (forall a b c d r, P r -> P (a :: b :: c :: d :: r)) -> forall l, P l.
 Proof.
-  intros H0 H1 H2 H3 H4. fix IH 1. intros [|a [|b [|c [|d r]]]]; auto. apply H4. apply IH.
+  intros H0 H1 H2 H3 H4. fix IH 1. intros [|a [|b [|c [|d r]]]]; [apply H0|apply H1|apply H2|apply H3|apply H4; apply IH].
 Qed.
 
 Lemma chunks_spec s : Forall (fun b => b < 256) s ->
@@ -174,9 +174,8 @@ Proof.
   unfold dst at 1 2 3 4. cbn [rest off lim dec_lim].
   assert (Hfit: 4 * cw <=? N.of_nat (length (bs ++ r)) = true) by (rewrite app_length; lia).
   rewrite Hfit. f_equal. unfold dst. f_equal.
-  replace (N.to_nat (4 * cw)) with (length bs + 0)%nat by lia.
-  rewrite skipn_app, Nat.add_0_r, skipn_all.
-  replace (length bs + 0 - length bs)%nat with 0%nat by lia. reflexivity.
+  replace (N.to_nat (4 * cw)) with (length bs) by lia.
+  rewrite skipn_app, skipn_all, Nat.sub_diag. reflexivity.
 Qed.
 
 (** the task's D3, with the limit counted in words *)
@@ -189,3 +188,225 @@ Proof.
           = (inl s, dst r (o + 4 * N.of_nat (length (chunks s))) n)).
   rewrite string_read by (exact Hs || lia). f_equal. apply dst_ext; lia.
 Qed.
+
+(** ---------------------------------------------------------------- *)
+(** * Reading back operands: slot -> slots -> parse_operand          *)
+(** ---------------------------------------------------------------- *)
+
+(** [f] reads the words [ws] (whatever follows them), returns [a], charges
+    the limit with exactly [length ws] words *)
+Definition Reads {A} (f : dec -> res (A * dec)) (ws : list N) (a : A) : Prop :=
+  forall r o l, N.of_nat (length ws) <= l ->
+    f (dst (bytes_of_words ws ++ r) o l)
+    = Ok (a, dst r (o + 4 * N.of_nat (length ws)) (l - N.of_nat (length ws))).
+
+Lemma asm_operand_nonempty o : (1 <= length (asm_operand o))%nat.
+Proof. destruct o; cbn [asm_operand length]; try lia. apply chunks_nonempty. Qed.
+
+Lemma flat_asm_nonempty o os : (1 <= length (flat_map asm_operand (o :: os)))%nat.
+Proof. cbn [flat_map]. rewrite app_length. pose proof (asm_operand_nonempty o). lia. Qed.
+
+Lemma word_operand_spec m o : word_operand m o = true ->
+  o = make_operand m (operand_value o) /\ operand_value o < w32 /\
+  asm_operand o = [operand_value o] /\ m <> MkStr.
+Proof.
+  destruct m, o; cbn [word_operand make_operand operand_value asm_operand]; try discriminate; intros H;
+    (split; [|split; [|split]]); try reflexivity; try discriminate; try lia.
+  apply andb_prop in H as [H1 _]. apply N.eqb_eq in H1. subst. reflexivity.
+Qed.
+
+Lemma read_slot_word m : m <> MkStr ->
+  read_slot (RdWord, m) = fun d => do (w, d1) <- dreq (word d); Ok (make_operand m w, d1).
+Proof. destruct m; try congruence; reflexivity. Qed.
+
+Lemma read_slot_typed c m : m <> MkStr ->
+  read_slot (RdTyped c, m) = fun d => do (w, d1) <- dreq (typed c d); Ok (make_operand m w, d1).
+Proof. destruct m; try congruence; reflexivity. Qed.
+
+Lemma read_slot_ok s o : slot_ok s o = true -> Reads (read_slot s) (asm_operand o) o.
+Proof.
+  destruct s as [rd m]. intros H r off l Hl. destruct rd as [| |c]; cbn [slot_ok] in H.
+  - destruct (word_operand_spec m o H) as (Ho & Hv & Ha & Hm). rewrite Ha in *. cbn [length] in *.
+    rewrite bytes_of_words_single, read_slot_word by exact Hm.
+    rewrite word_read by lia. cbn [dreq bind]. rewrite <- Ho. apply Ok_dst_ext; lia.
+  - destruct m; try discriminate. destruct o as [| | | | | | | |s]; try discriminate.
+    cbn [read_slot asm_operand] in *. rewrite string_read by assumption. reflexivity.
+  - apply andb_prop in H as [H Hc].
+    destruct (word_operand_spec m o H) as (Ho & Hv & Ha & Hm). rewrite Ha in *. cbn [length] in *.
+    rewrite bytes_of_words_single, read_slot_typed by exact Hm.
+    unfold typed. rewrite word_read by lia. rewrite Hc. cbn [dreq bind]. rewrite <- Ho.
+    apply Ok_dst_ext; lia.
+Qed.
+
+Lemma parse_slots_ok : forall ss os a rest, split_slots ss os = Some (a, rest) ->
+  os = a ++ rest /\ Reads (parse_slots ss) (flat_map asm_operand a) a.
+Proof.
+  induction ss as [|s ss IH]; intros os a rest H; cbn [split_slots] in H.
+  - inversion H; subst. split; [reflexivity|]. intros r o l Hl.
+    cbn [flat_map parse_slots bytes_of_words app length]. apply Ok_dst_ext; lia.
+  - destruct os as [|o1 os1]; [discriminate|]. destruct (slot_ok s o1) eqn:Hs; [|discriminate].
+    destruct (split_slots ss os1) as [[a1 rest1]|] eqn:E; [|discriminate].
+    inversion H; subst. destruct (IH _ _ _ E) as [-> HR]. split; [reflexivity|].
+    intros r off l Hl. cbn [flat_map parse_slots] in *.
+    rewrite bytes_of_words_app, <- app_assoc. rewrite app_length in Hl.
+    rewrite (read_slot_ok s o1 Hs) by lia. cbn [bind].
+    rewrite HR by lia. cbn [bind]. apply Ok_dst_ext; rewrite app_length; lia.
+Qed.
+
+Lemma parse_operand_ok G k os a rest : split_kind G k os = Some (a, rest) ->
+  os = a ++ rest /\ Reads (parse_operand G k) (flat_map asm_operand a) a.
+Proof.
+  unfold split_kind, parse_operand. destruct (nth_error (gd_arms G) (N.to_nat k)) as [[|ss|s t]|]; try discriminate.
+  - apply parse_slots_ok.
+  - intros H. destruct os as [|o1 os1]; [discriminate|]. destruct (slot_ok s o1) eqn:Hs; [|discriminate].
+    destruct (split_slots (table_params t (operand_value o1)) os1) as [[a1 rest1]|] eqn:E; [|discriminate].
+    inversion H; subst. destruct (parse_slots_ok _ _ _ _ E) as [-> HR]. split; [reflexivity|].
+    intros r off l Hl. cbn [flat_map] in *.
+    rewrite bytes_of_words_app, <- app_assoc. rewrite app_length in Hl.
+    rewrite (read_slot_ok s o1 Hs) by lia. cbn [bind].
+    rewrite HR by lia. cbn [bind]. apply Ok_dst_ext; rewrite app_length; lia.
+Qed.
+
+(** context-dependent literals *)
+Lemma parse_literal_width t id idx d :
+  parse_literal t id idx d =
+  match lit_width t id with
+  | Some W32 => lit32 d
+  | Some W64 => lit64 d
+  | None => Er (PTypeUnsupported (off d) idx)
+  end.
+Proof.
+  unfold parse_literal, lit_width. destruct (resolve t id) as [[size sg|size]|]; [| |reflexivity].
+  - destruct (N.eqb size 8 || N.eqb size 16 || N.eqb size 32); [reflexivity|].
+    destruct (N.eqb size 64); reflexivity.
+  - destruct (N.eqb size 16 || N.eqb size 32); [reflexivity|].
+    destruct (N.eqb size 64); reflexivity.
+Qed.
+
+Lemma parse_literal_ok t id idx o : literal_ok t id o = true ->
+  Reads (parse_literal t id idx) (asm_operand o) o.
+Proof.
+  unfold literal_ok. intros H r off l Hl. rewrite parse_literal_width.
+  destruct (lit_width t id) as [[|]|]; [| |discriminate].
+  - destruct o; try discriminate. cbn [asm_operand length] in *. unfold lit32.
+    rewrite bytes_of_words_single, word_read by lia. cbn [dreq bind]. apply Ok_dst_ext; lia.
+  - destruct o; try discriminate. cbn [asm_operand length] in *. unfold lit64.
+    rewrite bit64_read by lia. cbn [dreq bind]. apply Ok_dst_ext; lia.
+Qed.
+
+(** ---------------------------------------------------------------- *)
+(** * OpSpecConstantOp: nested operands                               *)
+(** ---------------------------------------------------------------- *)
+Notation flat := (flat_map asm_operand).
+
+Lemma parse_star_nil G fuel k acc r o :
+  parse_star G (S fuel) k (dst r o 0) acc = Ok (acc, dst r o 0).
+Proof. cbn [parse_star]. rewrite limit_reached_dst. reflexivity. Qed.
+
+Lemma parse_star_ok G k : forall sf os, split_star G k sf os = true ->
+  forall fuel acc r o l,
+    l = N.of_nat (length (flat os)) -> (length (flat os) < fuel)%nat ->
+    parse_star G fuel k (dst (bytes_of_words (flat os) ++ r) o l) acc = Ok (acc ++ os, dst r (o + 4 * l) 0).
+Proof.
+  assert (Hnil: forall fuel acc r o l, l = N.of_nat (length (flat [])) -> (length (flat []) < fuel)%nat ->
+            parse_star G fuel k (dst (bytes_of_words (flat []) ++ r) o l) acc = Ok (acc ++ [], dst r (o + 4 * l) 0)).
+  { intros fuel acc r o l -> Hf. destruct fuel; [cbn in Hf; lia|].
+    cbn [flat_map bytes_of_words app length]. rewrite parse_star_nil, app_nil_r. apply Ok_dst_ext; lia. }
+  induction sf as [|sf IH]; intros os H fuel acc r o l Hl Hf.
+  - destruct os; [|discriminate]. apply Hnil; assumption.
+  - destruct os as [|o1 os1]; [apply Hnil; assumption|]. cbn [split_star] in H.
+    destruct (split_kind G k (o1 :: os1)) as [[[|a0 a] rest]|] eqn:E; try discriminate.
+    destruct (parse_operand_ok _ _ _ _ _ E) as [Heq HR]. rewrite Heq in *. clear Heq E.
+    rewrite flat_map_app, app_length in *. pose proof (flat_asm_nonempty a0 a) as Hne.
+    destruct fuel; [lia|]. cbn [parse_star]. rewrite limit_reached_dst.
+    destruct (l =? 0) eqn:E0; [lia|].
+    rewrite bytes_of_words_app, <- app_assoc, HR by lia. cbn [bind].
+    rewrite (IH _ H) by lia. rewrite app_assoc. apply Ok_dst_ext; lia.
+Qed.
+
+Section Nested.
+Variable G : gdata.
+
+Lemma conf_nested_ok : forall lops os a rest, conf_nested G lops os = Some (a, rest) ->
+  os = a ++ rest /\
+  forall idx acc r o l, l = N.of_nat (length (flat os)) ->
+    parse_nested G lops idx (dst (bytes_of_words (flat os) ++ r) o l) acc
+    = Ok (acc ++ a, dst (bytes_of_words (flat rest) ++ r) (o + 4 * N.of_nat (length (flat a)))
+                        (N.of_nat (length (flat rest)))).
+Proof.
+  induction lops as [|[k q] lops IH]; intros os a rest H; cbn [conf_nested] in H.
+  - inversion H; subst. split; [reflexivity|]. intros idx acc r o l ->. cbn [parse_nested flat_map length].
+    rewrite app_nil_r. apply Ok_dst_ext; lia.
+  - destruct (N.eqb k (gd_k_rt G) || N.eqb k (gd_k_rid G)) eqn:Eres.
+    { destruct (IH _ _ _ H) as [Heq HP]. split; [exact Heq|]. intros idx acc r o l Hl.
+      cbn [parse_nested]. rewrite Eres. apply HP. exact Hl. }
+    destruct (N.eqb k (gd_k_ctx G) || N.eqb k (gd_k_pairlitid G) || N.eqb k (gd_k_specop G)) eqn:Espec;
+      [discriminate|].
+    (* the "exactly one" case, shared by One and a present ZeroOrOne *)
+    assert (Hone: forall os, match split_kind G k os with
+              | Some (a0, os1) => match conf_nested G lops os1 with
+                                  | Some (b, rest) => Some (a0 ++ b, rest) | None => None end
+              | None => None end = Some (a, rest) ->
+              os = a ++ rest /\
+              forall idx acc r o l, l = N.of_nat (length (flat os)) ->
+                (do (a1, d1) <- parse_operand G k (dst (bytes_of_words (flat os) ++ r) o l);
+                 parse_nested G lops idx d1 (acc ++ a1))
+                = Ok (acc ++ a, dst (bytes_of_words (flat rest) ++ r) (o + 4 * N.of_nat (length (flat a)))
+                                    (N.of_nat (length (flat rest))))).
+    { clear H. intros os0 H. destruct (split_kind G k os0) as [[a0 os1]|] eqn:E; [|discriminate].
+      destruct (conf_nested G lops os1) as [[b rest1]|] eqn:EN; [|discriminate]. inversion H; subst. clear H.
+      destruct (parse_operand_ok _ _ _ _ _ E) as [-> HR]. destruct (IH _ _ _ EN) as [-> HP].
+      split; [apply app_assoc|]. intros idx acc r o l ->.
+      rewrite (flat_map_app asm_operand a0), app_length, bytes_of_words_app, <- app_assoc.
+      rewrite HR by lia. cbn [bind].
+      rewrite HP by lia.
+      rewrite app_assoc. apply Ok_dst_ext; rewrite ?flat_map_app, ?app_length; lia. }
+    destruct q.
+    + destruct (Hone _ H) as [Heq HP]. split; [exact Heq|]. intros idx acc r o l Hl.
+      cbn [parse_nested]. rewrite Eres, Espec. apply HP. exact Hl.
+    + destruct os as [|o1 os1].
+      * destruct (IH _ _ _ H) as [Heq HP]. split; [exact Heq|]. intros idx acc r o l Hl.
+        cbn [parse_nested]. rewrite Eres, Espec, limit_reached_dst.
+        cbn [flat_map length] in Hl. subst l. cbn. apply HP. reflexivity.
+      * destruct (Hone _ H) as [Heq HP]. split; [exact Heq|]. intros idx acc r o l Hl.
+        cbn [parse_nested]. rewrite Eres, Espec, limit_reached_dst.
+        pose proof (flat_asm_nonempty o1 os1). destruct (l =? 0) eqn:E0; [lia|]. apply HP. exact Hl.
+    + destruct (split_star G k (length os) os) eqn:ES; [|discriminate].
+      destruct (conf_nested G lops []) as [[b rest1]|] eqn:EN; [|discriminate]. inversion H; subst. clear H.
+      destruct (IH _ _ _ EN) as [Hnil HP].
+      symmetry in Hnil. apply app_eq_nil in Hnil as [-> ->].
+      split; [rewrite !app_nil_r; reflexivity|]. intros idx acc r o l Hl.
+      cbn [parse_nested]. rewrite Eres, Espec.
+      unfold star_fuel, dst at 1. cbn [lim].
+      rewrite (parse_star_ok G k _ _ ES) by lia. cbn [bind].
+      specialize (HP idx (acc ++ os) r (o + 4 * l) 0 eq_refl).
+      cbn [flat_map bytes_of_words app length] in HP. rewrite HP.
+      rewrite !app_nil_r. cbn [flat_map bytes_of_words app length]. apply Ok_dst_ext; lia.
+Qed.
+
+Hypothesis SMALL : small_opcodes (gd_table G) = true.
+
+Lemma lookup_core_opcode n g : lookup_core (gd_table G) n = Some g -> g_opcode g = n /\ n < 65536.
+Proof.
+  unfold lookup_core. intros H. apply find_some in H as [Hin Heq]. apply N.eqb_eq in Heq.
+  unfold small_opcodes in SMALL. rewrite forallb_forall in SMALL. specialize (SMALL g Hin).
+  rewrite N.mod_small in Heq by lia. lia.
+Qed.
+
+Lemma parse_spec_constant_op_ok n os1 g a rest :
+  lookup_core (gd_table G) n = Some g -> conf_nested G (g_operands g) os1 = Some (a, rest) ->
+  os1 = a ++ rest /\
+  forall idx r o l, l = N.of_nat (length (flat (OSpecOp n :: os1))) ->
+    parse_spec_constant_op G idx (dst (bytes_of_words (flat (OSpecOp n :: os1)) ++ r) o l)
+    = Ok (OSpecOp n :: a, dst (bytes_of_words (flat rest) ++ r) (o + 4 * N.of_nat (length (flat (OSpecOp n :: a))))
+                              (N.of_nat (length (flat rest)))).
+Proof.
+  intros HL HN. destruct (lookup_core_opcode _ _ HL) as [Hop Hn].
+  destruct (conf_nested_ok _ _ _ _ HN) as [Heq HP]. split; [exact Heq|].
+  intros idx r o l ->. unfold parse_spec_constant_op.
+  cbn [flat_map asm_operand app length]. rewrite bytes_of_words_cons, <- app_assoc.
+  rewrite word_read by (unfold w32; lia). cbn [dreq bind].
+  destruct (n <? 65536) eqn:E; [|lia]. rewrite HL, Hop.
+  rewrite HP by lia. cbn [app]. apply Ok_dst_ext; lia.
+Qed.
+End Nested.
